@@ -2,8 +2,10 @@ use crate::framework::PropertyDef;
 
 pub mod c01;
 pub mod c02;
+pub mod c03;
 pub mod c18;
+pub mod c22;
 
 pub fn all() -> Vec<PropertyDef> {
-    vec![c01::def(), c02::def(), c18::def()]
+    vec![c01::def(), c02::def(), c03::def(), c18::def(), c22::def()]
 }
